@@ -123,7 +123,7 @@ def attach_handle_rules(ctx, F, rule="R17.5"):
         if any(f["ty"].startswith("core::option::Option<fn()") for v in adt["variants"] for f in v["fields"]):
             for it in imp["items"]:
                 if it["name"] == "drop":
-                    b = F.bodies.get((core, it["def"]))
+                    b = F.bodies.get((core, it.get("uid") or it["def"]))
                     if b:
                         drops.append((adt, b))
     ctx.floor(rule, "attach-handle destructors (ADT holding Option<fn()>)", len(drops), 1)
@@ -265,7 +265,7 @@ def run(ctx):
             ("TokioRuntimeTestSinkGuard", lambda b: [c.bb for c in b.calls() if c.name == "remove" and "HashMap" in c.def_], "removes its runtime id from the map")):
         for imp in F.impls_of("core::ops::drop::Drop", nm):
             for it in imp["items"]:
-                b = F.bodies.get((imp["crate"], it["def"]))
+                b = F.bodies.get((imp["crate"], it.get("uid") or it["def"]))
                 if b is None:
                     continue
                 sites = pred(b)
